@@ -5,6 +5,11 @@ Three legs per case:
 * the implementation against the Lean specification and the Lean mechanism (driver ops c11.overlap / c11.structuredD);
   structured cases carry a dtype per field (float64 by default; float32 / int64 and the same name with two dtypes in a
   part of the cases): the model returns the exception class or the cast pixels (`overlapStructuredD`);
+  value classes (whole images of 0 / -0.0 / one constant / the fill value, zeros with NaNs, values that cancel, the
+  negative of an earlier image on the same footprint, values needing more than 24 mantissa bits), geometry classes
+  (stack of frames on one footprint, abutting tiles of a mosaic with and without gaps, images nested in one another,
+  larger images, longer lists), the same ndarray object at several places of the list, and a second call on the same
+  objects are generated beside the uniformly random images;
 * "inputs are left unmodified": a snapshot of every input array (and of the buffer a non-contiguous view lives in, and of
   the offsets container) taken before the call and compared after it; inputs are C-contiguous, read-only, strided views
   into a larger buffer, Fortran-ordered or reversed views.  This clause is backed by the snapshot only (no theorem: the
@@ -74,9 +79,55 @@ def lay_out(arr, layout):
     return arr, arr
 
 
+def fval(v, negzero=False):
+    """abstract value (None | integer number of quarters) -> float; `negzero`: zeros carry the sign bit"""
+    if v is None:
+        return math.nan
+    if v == 0 and negzero:
+        return -0.0
+    return v / 4
+
+
 def to_np(a, ndim):
-    arr = np.array([math.nan if v is None else v / 4 for v in a["data"]], dtype=np.float64)
+    arr = np.array([fval(v, a.get("negzero", False)) for v in a["data"]], dtype=np.float64)
     return arr.reshape(a["shape"])
+
+
+# value classes of one image (or of one field of a structured image)
+VCLASSES = ["rand", "zeros", "zeros", "negzeros", "const", "fillconst", "zeros+nan", "cancel", "negprev", "complement", "wide"]
+
+
+def gen_values(rng, size, vclass, fill, prev=None):
+    """data (None | quarters) of one image of `size` pixels in value class `vclass`; `prev`: data of an earlier image
+    of the same size (class negprev)"""
+    if vclass in ("zeros", "negzeros"):
+        return [0] * size
+    if vclass == "const":
+        c = rng.randint(-20, 20)
+        return [c] * size
+    if vclass == "fillconst":  # every value equals the fill (a constant when the fill is NaN)
+        c = fill if fill is not None else rng.choice([0, 4, -4])
+        return [c] * size
+    if vclass == "zeros+nan":
+        return [None if rng.random() < 0.4 else 0 for _ in range(size)]
+    if vclass == "cancel":  # the values of the image sum to zero
+        half = [rng.randint(1, 20) * rng.choice([1, -1]) for _ in range(size // 2)]
+        data = half + [-v for v in half] + [0] * (size % 2)
+        rng.shuffle(data)
+        return data
+    if vclass == "negprev" and prev is not None and len(prev) == size:
+        return [None if v is None else -v for v in prev]
+    if vclass == "complement" and prev is not None and len(prev) == size:  # together with `prev` every pixel sums to the fill
+        return [None if v is None else (fill or 0) - v for v in prev]
+    if vclass == "wide":  # more than 24 significant bits, magnitudes up to 2^44 quarters
+        return [None if rng.random() < 0.1 else rng.choice([1, -1]) * (rng.randint(2 ** 30, 2 ** 44) | 1) for _ in range(size)]
+    pnan = rng.choice([0.0, 0.0, 0.15, 0.5])
+    return [None if rng.random() < pnan else rng.randint(-20, 20) for _ in range(size)]
+
+
+def exact_ok(values, n_bits=53):
+    """every partial sum of the values (quarters) is an integer below 2^n_bits: float accumulation in any order is exact"""
+    return sum(abs(v) for v in values if v is not None) < 2 ** n_bits
 
 
 def make_offsets(case):
@@ -124,18 +175,119 @@ def enc_data(data):
     return [None if v is None else core.rat(Fraction(v, 4)) for v in data]
 
 
+def build_objects(descs, make, share):
+    """one object per description; with `share`, descriptions that agree in everything but the offset are ONE object
+    (the same image at several places of the list)"""
+    cache, out = {}, []
+    for a in descs:
+        key = core.canon({k: v for k, v in a.items() if k != "off"}) if share else None
+        if key is None or key not in cache:
+            made = make(a)
+            if key is None:
+                out.append(made)
+                continue
+            cache[key] = made
+        out.append(cache[key])
+    return out
+
+
+def value_feats(descs, lo, shape, fill, mode):
+    """value classes of the images `descs` (off, shape, data in quarters) and of the pixels of the canvas they produce"""
+    feats = set()
+    cnt = np.zeros(shape, dtype=np.int64)
+    nz = np.zeros(shape, dtype=np.int64)
+    tot = np.zeros(shape, dtype=np.int64)
+    last = np.zeros(shape, dtype=np.int64)
+    for a in descs:
+        vals = [v for v in a["data"] if v is not None]
+        full = len(vals) == len(a["data"])
+        if vals and full and not any(vals):
+            feats.add("value:all-zero-image")
+        if a.get("negzero") and 0 in vals:
+            feats.add("value:neg-zero")
+        if full and len(vals) >= 2 and vals[0] != 0 and len(set(vals)) == 1:
+            feats.add("value:constant-image")
+        if vals and not full and not any(vals):
+            feats.add("value:zeros+nan-image")
+        if any(vals) and sum(vals) == 0:
+            feats.add("value:image-sums-to-zero")
+        if any(abs(v) >= 2 ** 24 for v in vals):
+            feats.add("value:wide-mantissa")
+        if fill is not None and vals and all(v == fill for v in vals):
+            feats.add("value:image-equals-fill")
+        d = np.array([0 if v is None else v for v in a["data"]], dtype=np.int64).reshape(a["shape"])
+        m = np.array([v is not None for v in a["data"]], dtype=bool).reshape(a["shape"])
+        sl = tuple(slice(o - l, o - l + s) for o, l, s in zip(a["off"], lo, a["shape"]))
+        cnt[sl] += m
+        nz[sl] += d != 0
+        tot[sl] += d
+        last[sl][m] = d[m]
+    if ((cnt >= 1) & (nz == 0)).any():
+        feats.add("value:zero-only-pixel")
+    if ((nz >= 1) & (tot == 0)).any():
+        feats.add("value:sum-cancels-pixel")
+    if fill is not None:
+        res = last if mode == "replace" else tot if mode == "sum" else None
+        hit = ((cnt >= 1) & (res == fill)) if res is not None else ((cnt >= 1) & (tot == fill * cnt))
+        if hit.any():
+            feats.add("value:pixel-equals-fill")
+        if mode == "mean" and ((cnt >= 2) & (tot == fill)).any():
+            feats.add("value:pixel-sum-equals-fill")
+    return feats
+
+
+def geom_feats(arrs):
+    """geometry classes of the footprints (skipped for very long lists)"""
+    feats = set()
+    if any(s > 4 for a in arrs for s in a["shape"]):
+        feats.add("size:side>4")
+    if len(arrs) > 64:
+        return feats
+    boxes = [[(o, o + s) for o, s in zip(a["off"], a["shape"])] for a in arrs]
+    disjoint = len(boxes) >= 2
+    for i in range(len(boxes)):
+        for j in range(i + 1, len(boxes)):
+            a, b = boxes[i], boxes[j]
+            if a == b:
+                feats.add("geom:same-footprint")
+            inter = [min(x[1], y[1]) - max(x[0], y[0]) for x, y in zip(a, b)]
+            if all(v > 0 for v in inter):
+                disjoint = False
+                if a != b and (all(x[0] <= y[0] and y[1] <= x[1] for x, y in zip(a, b))
+                               or all(y[0] <= x[0] and x[1] <= y[1] for x, y in zip(a, b))):
+                    feats.add("geom:nested")
+            elif sum(v == 0 for v in inter) == 1 and sum(v > 0 for v in inter) == len(inter) - 1:
+                feats.add("geom:abutting")
+    if disjoint:
+        feats.add("geom:all-disjoint")
+    return feats
+
+
+NONTRIVIAL = {"overlap>=2", "nan-only-pixel", "uncovered-pixel", "value:zero-only-pixel", "value:sum-cancels-pixel",
+              "value:pixel-equals-fill", "value:pixel-sum-equals-fill", "geom:abutting"}
+
+
 class C11(Prop):
     id = "C11"
     anchored = ["src/pewlib/process/register.py"]
-    cases = {"quick": 400, "thorough": 12000}
+    cases = {"quick": 600, "thorough": 12000}
     rule = ("random lists of 1..6 arrays (1-3 D, sides 1..4, offsets -5..5, dyadic values k/4, NaNs incl. whole arrays), "
-            "fills NaN/0/finite, three modes, plain and structured; inputs C-contiguous, read-only, strided views, Fortran "
+            "fills NaN/0/finite, three modes, plain and structured; in 40 % of the cases every image (field) is drawn from the "
+            "value classes all 0 / all -0.0 / one constant / the fill value / zeros with NaNs / values that cancel / the "
+            "negative of an earlier image on its footprint / its complement to the fill / values of more than 24 mantissa "
+            "bits; geometry classes in 40 % of the cases: stack of frames on one footprint, abutting tiles with and without "
+            "gaps, images nested in one, images with sides up to 65 (1-D up to 4097, pixel counts around the powers of two), "
+            "lists of 7..40 images; the same ndarray object at two or three places of the list (12 %); a second call on the "
+            "same objects (30 %); inputs C-contiguous, read-only, strided views, Fortran "
             "order, reversed views; offsets as tuples / lists / int64 arrays; structured: float64 fields, and in a fifth of "
             "the cases float32 / int64 fields, in a tenth the same name with two dtypes; metamorphic leg (translation, all "
             "permutations of <= 4 inputs for mean/sum, last writer for replace) on every case of <= 4 inputs in the "
             "thorough tier and a quarter of them in the quick tier; non-trivial = some pixel receives >=2 contributions, "
-            "or a NaN-only covered pixel, or an uncovered pixel; distinct by canonical case hash")
-    trusted = ["np.nansum/np.full/boolean-mask assignment as documented; float sums of the generated dyadic values are exact, "
+            "or a NaN-only covered pixel, or an uncovered pixel, or a pixel whose contributions are all zero / cancel / give "
+            "the fill value, or two abutting images; distinct by canonical case hash")
+    trusted = ["np.nansum/np.full/boolean-mask assignment as documented; float sums of the generated dyadic values are exact "
+               "(evaluate checks that the absolute values of a case sum to less than 2^53 quarters, 2^24 where a float32 field "
+               "is involved, and counts the case as undetermined otherwise), "
                "the mean's single division is correctly rounded (compared with float(Fraction)); float32 fields: the division is "
                "done in float64 and rounded once more to float32 (canonicaliser: float32(float64(q)))",
                "'inputs are left unmodified' is backed by the harness snapshot only (bytes of every input and of the buffer "
@@ -149,12 +301,55 @@ class C11(Prop):
                    "(model: TypeError / ValueError): which exception is raised is an accident of the NumPy calls used, such a "
                    "case is counted as undetermined and not compared"]
 
-    def gen_array(self, rng, ndim, allnan=False):
-        shape = [rng.randint(1, 4) for _ in range(ndim)]
+    def gen_array(self, rng, ndim, allnan=False, place=None, vclass="rand", fill=None, prev=None):
+        off, shape = place if place else ([rng.randint(-5, 5) for _ in range(ndim)], [rng.randint(1, 4) for _ in range(ndim)])
         size = int(np.prod(shape))
-        pnan = 1.0 if allnan else rng.choice([0.0, 0.0, 0.15, 0.5])
-        data = [None if rng.random() < pnan else rng.randint(-20, 20) for _ in range(size)]
-        return {"off": [rng.randint(-5, 5) for _ in range(ndim)], "shape": shape, "data": data}
+        data = [None] * size if allnan else gen_values(rng, size, vclass, fill, prev)
+        a = {"off": list(off), "shape": list(shape), "data": data}
+        if vclass == "negzeros":
+            a["negzero"] = True
+        return a
+
+    def places(self, rng, geom, ndim, n):
+        """footprints (offset, shape) of the inputs of one case, by geometry class"""
+        roff = lambda: [rng.randint(-5, 5) for _ in range(ndim)]
+        rshape = lambda: [rng.randint(1, 4) for _ in range(ndim)]
+        if geom == "stack":  # frames of one series: one footprint (some of them moved by one pixel in a part of the cases)
+            off, shape = roff(), rshape()
+            jitter = rng.random() < 0.3
+            return [([o + (rng.randint(-1, 1) if jitter and rng.random() < 0.3 else 0) for o in off], shape) for _ in range(n)]
+        if geom == "tiles":  # a mosaic: tiles of one shape that abut exactly, in any order, with gaps in a part of the cases
+            tile, base = rshape(), roff()
+            grid = [rng.randint(1, 3) for _ in range(ndim)]
+            while int(np.prod(grid)) > 9:
+                grid[rng.randrange(ndim)] -= 1
+            cells = list(itertools.product(*[range(g) for g in grid]))
+            rng.shuffle(cells)
+            if rng.random() < 0.5 and len(cells) > 1:
+                cells = cells[:rng.randint(max(1, len(cells) // 2), len(cells) - 1)]
+            out = [([b + c * t for b, c, t in zip(base, cell, tile)], tile) for cell in cells]
+            if rng.random() < 0.3:  # one more image lying across the seams
+                out.insert(rng.randint(0, len(out)), ([b + rng.randint(0, t) for b, t in zip(base, tile)], rshape()))
+            return out
+        if geom == "nested":  # one large image, the others inside it
+            off, shape = roff(), [rng.randint(3, 6) for _ in range(ndim)]
+            out = []
+            for _ in range(max(1, n - 1)):
+                sh = [rng.randint(1, s) for s in shape]
+                out.append(([o + rng.randint(0, s - t) for o, s, t in zip(off, shape, sh)], sh))
+            out.insert(rng.randint(0, len(out)), (off, shape))
+            return out
+        if geom == "big":  # sides beyond the usual 1..4, pixel counts on both sides of the powers of two up to 4096
+            out = []
+            for _ in range(n):
+                if ndim == 1:
+                    shape = [rng.choice([rng.randint(5, 40), rng.choice([16, 64, 256, 1024, 4096]) + rng.randint(-1, 1)])]
+                else:
+                    shape = [rng.choice([rng.randint(5, 40), rng.randint(1, 40), rng.choice([8, 16, 32, 64]) + rng.randint(-1, 1)])
+                             for _ in range(ndim)]
+                out.append(([rng.randint(-20, 20) for _ in range(ndim)], shape))
+            return out
+        return [(roff(), rshape()) for _ in range(n)]
 
     def generate(self, rng, tier):
         ndim = rng.choice([1, 2, 2, 2, 3])
@@ -162,6 +357,15 @@ class C11(Prop):
         mode = rng.choice(["replace", "mean", "sum"])
         fill = rng.choice([None, None, 0, 40, -7, 1])  # quarters: 10.0, -1.75, 0.25
         structured = rng.random() < 0.25
+        r = rng.random()
+        geom = ("free" if r < 0.60 else "stack" if r < 0.68 else "tiles" if r < 0.80 else "nested" if r < 0.86
+                else "big" if r < 0.95 else "long")
+        if geom == "big":
+            ndim, n = rng.choice([1, 2, 2]), min(n, 3)
+        if geom == "long" or (geom == "stack" and rng.random() < 0.3):  # lists longer than a handful
+            ndim, n = min(ndim, 2), rng.randint(7, 40)
+        special = rng.random() < 0.4  # images drawn from the value classes
+        places = self.places(rng, geom, ndim, n)
         case = {"kind": "structured" if structured else "plain", "ndim": ndim, "mode": mode, "fill": fill}
         if structured:
             names = ["A", "B", "C"]
@@ -172,27 +376,57 @@ class C11(Prop):
                 dts = {nm: rng.choice(["f8", "f4", "i8", "i8"]) for nm in names}
             clash = rng.random() < 0.1
             arrs = []
-            for _ in range(n):
-                a = self.gen_array(rng, ndim)
+            for place in places:
+                a = {"off": list(place[0]), "shape": list(place[1])}
                 k = rng.randint(1, 3)
                 fields = rng.sample(names, k)
-                size = len(a["data"])
+                size = int(np.prod(a["shape"]))
                 fs = []
                 for f in fields:
                     dt = dts[f]
                     if clash and rng.random() < 0.4:
                         dt = rng.choice(["f8", "f4", "i8"])
+                    vc = rng.choice(VCLASSES) if special else "rand"
+                    prev = None
+                    if vc in ("negprev", "complement"):  # the negative of the same field of an earlier image of the same shape, on its footprint
+                        cands = [(b, g) for b in arrs if b["shape"] == a["shape"] for g in b["fields"] if g["name"] == f]
+                        if cands:
+                            b, g = rng.choice(cands)
+                            prev, a["off"] = g["data"], list(b["off"])
+                    fd = {"name": f, "dtype": dt}
                     if dt == "i8":  # integers (multiples of 4 quarters), no NaN
-                        data = [4 * rng.randint(-5, 5) for _ in range(size)]
+                        if vc in ("zeros", "negzeros", "zeros+nan"):
+                            data = [0] * size
+                        elif vc in ("const", "fillconst"):
+                            data = [4 * rng.randint(-5, 5)] * size
+                        elif prev is not None:
+                            base = 4 * ((fill or 0) // 4) if vc == "complement" else 0
+                            data = [base + 4 * (-(v or 0) // 4) for v in prev]
+                        else:
+                            data = [4 * rng.randint(-5, 5) for _ in range(size)]
                     else:
-                        data = [None if rng.random() < 0.15 else rng.randint(-20, 20) for _ in range(size)]
-                    fs.append({"name": f, "dtype": dt, "data": data})
+                        if vc == "wide" and dt == "f4":
+                            vc = "rand"
+                        data = gen_values(rng, size, vc, fill, prev)
+                        if vc == "rand":
+                            data = [None if rng.random() < 0.15 else rng.randint(-20, 20) for _ in range(size)]
+                        if vc == "negzeros":
+                            fd["negzero"] = True
+                    fd["data"] = data
+                    fs.append(fd)
                 a["fields"] = fs
-                del a["data"]
                 arrs.append(a)
             case["arrays"] = arrs
         else:
-            case["arrays"] = [self.gen_array(rng, ndim, allnan=rng.random() < 0.08) for _ in range(n)]
+            arrs = []
+            for place in places:
+                vc = rng.choice(VCLASSES) if special else "rand"
+                prev = None
+                if vc in ("negprev", "complement") and arrs:  # the negative of an earlier image, on its footprint
+                    b = rng.choice(arrs)
+                    place, prev = (b["off"], b["shape"]), b["data"]
+                arrs.append(self.gen_array(rng, ndim, allnan=rng.random() < 0.08, place=place, vclass=vc, fill=fill, prev=prev))
+            case["arrays"] = arrs
             if rng.random() < 0.25:  # a common translation, also large and beyond the exactly representable doubles
                 big = rng.random() < 0.4
                 t = [rng.choice([2 ** 53, -(2 ** 53), 2 ** 53 + 2, 3 - 2 ** 55, 2 ** 56 + 1, -(2 ** 57) + 5]) + rng.randint(-3, 3)
@@ -203,10 +437,22 @@ class C11(Prop):
         for a in case["arrays"]:
             if rng.random() < 0.35:
                 a["layout"] = rng.choice(LAYOUTS[1:])
+        # the same image object at two (or three) places of the list
+        if rng.random() < 0.12:
+            for _ in range(rng.choice([1, 1, 2])):
+                src = rng.choice(case["arrays"])
+                dup = {k: (list(v) if isinstance(v, list) else v) for k, v in src.items()}
+                if rng.random() < 0.5:
+                    dup["off"] = [o + rng.randint(-2, 2) for o in src["off"]]
+                case["arrays"].insert(rng.randint(0, len(case["arrays"])), dup)
+            case["share_objects"] = True
         if rng.random() < 0.3:
             case["offs_kind"] = rng.choice(["list", "ndarray", "ndarray-ro"])
+        # a second call on the same objects
+        if rng.random() < 0.3:
+            case["repeat"] = True
         # metamorphic leg
-        if n <= 4 and (tier == "thorough" or rng.random() < 0.25):
+        if len(case["arrays"]) <= 4 and (tier == "thorough" or rng.random() < 0.25):
             case["meta"] = {"t": [rng.choice([rng.randint(-9, 9), rng.randint(-10 ** 6, 10 ** 6)]) for _ in range(ndim)]}
         return case
 
@@ -237,6 +483,45 @@ class C11(Prop):
                 for la in LAYOUTS[1:]:
                     yield {"kind": "plain", "ndim": 2, "mode": mode, "fill": fill, "offs_kind": "ndarray-ro",
                            "arrays": [{**ones, "layout": la}, {**nanarr, "layout": la}]}
+        # value classes: a blank (all-zero, also -0.0) tile beside a signal tile and a tile with some zeros; an image and
+        # its negative; an image that equals the fill; zeros with NaNs; one zero pixel alone
+        sig = {"off": [0, 0], "shape": [2, 2], "data": [4, 8, 12, 16]}
+        blank = {"off": [1, 1], "shape": [2, 2], "data": [0, 0, 0, 0]}
+        ctrl = {"off": [0, 3], "shape": [2, 2], "data": [0, 20, 0, None]}
+        for mode in ("replace", "mean", "sum"):
+            for fill in (None, 0, 40, -4):
+                pl = {"kind": "plain", "ndim": 2, "mode": mode, "fill": fill}
+                yield {**pl, "arrays": [sig, blank, ctrl], "meta": {"t": [2, -9]}, "repeat": True}
+                yield {**pl, "arrays": [{**blank, "negzero": True}, sig, ctrl], "meta": {"t": [-1, 5]}}
+                yield {**pl, "arrays": [{"off": [0, 0], "shape": [1, 1], "data": [0]}]}
+                yield {**pl, "arrays": [sig, {**sig, "data": [-4, -8, -12, -16]}, blank], "meta": {"t": [1, 1]}}
+                yield {**pl, "arrays": [{**sig, "data": [40, 40, -4, -4]}, {"off": [0, 1], "shape": [2, 2], "data": [40, None, -4, 0]}]}
+                yield {**pl, "arrays": [{"off": [0, 0], "shape": [1, 3], "data": [0, None, 0]},
+                                        {"off": [0, 1], "shape": [1, 3], "data": [None, None, 0]}]}
+                yield {**pl, "arrays": [{**sig, "data": [2 ** 40 + 1, -(2 ** 40) - 1, 2 ** 30 + 3, 1]},
+                                        {**sig, "data": [1, 2 ** 40 + 1, None, 2 ** 44 - 1]}, blank]}
+                # geometry: a 2 x 2 mosaic of abutting tiles in scrambled order, complete and with one tile missing; a stack
+                tiles = [{"off": [2 * i - 3, 2 * j + 1], "shape": [2, 2], "data": [4 * i, 0, None if i == j else 8, 4 * j]}
+                         for i, j in ((1, 0), (0, 0), (1, 1), (0, 1))]
+                yield {**pl, "arrays": tiles, "meta": {"t": [3, 3]}}
+                yield {**pl, "arrays": tiles[:3], "meta": {"t": [-3, 0]}}
+                yield {**pl, "arrays": [sig, {**sig, "data": [0, None, 0, 4]}, {**sig, "data": [None, None, 0, -20]}]}
+                # the same image object three times (once moved), called twice
+                yield {**pl, "share_objects": True, "repeat": True,
+                       "arrays": [nanarr, {**nanarr, "off": [2, 1]}, ones, nanarr]}
+                # structured: a blank field beside a signal field, a field only the blank image has
+                fz = lambda nm, data, **kw: {"name": nm, "dtype": "f8", "data": data, **kw}
+                yield {"kind": "structured", "ndim": 1, "mode": mode, "fill": fill, "repeat": True, "arrays": [
+                    {"off": [0], "shape": [2], "fields": [fz("A", [4, 8]), fz("B", [0, 0])]},
+                    {"off": [1], "shape": [2], "fields": [fz("A", [0, 0]), fz("C", [0, 0], negzero=True)]},
+                    {"off": [3], "shape": [2], "fields": [fz("B", [0, None])]}]}
+        # a larger image and a longer list
+        for mode in ("replace", "mean", "sum"):
+            yield {"kind": "plain", "ndim": 2, "mode": mode, "fill": None, "arrays": [
+                {"off": [0, 0], "shape": [33, 17], "data": [(i * 7) % 41 - 20 for i in range(33 * 17)]},
+                {"off": [-5, 9], "shape": [16, 64], "data": [None if i % 5 == 0 else 0 if i % 3 == 0 else i % 13 for i in range(16 * 64)]}]}
+            yield {"kind": "plain", "ndim": 1, "mode": mode, "fill": 40, "arrays": [
+                {"off": [i % 9], "shape": [3], "data": [i - 20, None if i % 4 == 0 else 0, 20 - i]} for i in range(40)]}
         # structured: the same name with two dtypes; integer and float32 fields, first array with / without the field
         fa = lambda dt, data: {"name": "A", "dtype": dt, "data": data}
         fb = lambda dt, data: {"name": "B", "dtype": dt, "data": data}
@@ -254,24 +539,37 @@ class C11(Prop):
                                         {**nxt, "fields": [fb("f4", [1, 8]), fa("f8", [1, 2])]}]}
 
     # ------------------------------------------------------------------ evaluation
-    def run_plain(self, register, case, arrs_desc, fill, mode, offs_kind=None, layouts=True):
-        """one call of overlap_arrays; returns (result dict, inputs_unchanged)"""
+    def run_plain(self, register, case, arrs_desc, fill, mode, offs_kind=None, layouts=True, repeat=False):
+        """one call of overlap_arrays (two on the same objects with `repeat`); returns (result dict, inputs_unchanged,
+        second result equals the first | None, some object occurs twice in the list)"""
         ndim = case["ndim"]
-        pairs = [lay_out(to_np(a, ndim), a.get("layout", "c") if layouts else "c") for a in arrs_desc]
+        pairs = build_objects(arrs_desc, lambda a: lay_out(to_np(a, ndim), a.get("layout", "c") if layouts else "c"),
+                              case.get("share_objects", False))
         arrays = [p[0] for p in pairs]
         offsets = make_offsets({"arrays": arrs_desc, "offs_kind": offs_kind or "tuple"})
         before = [b.tobytes() for _, b in pairs]
         shapes = [(a.shape, a.strides, a.dtype.str) for a in arrays]
         offs_before = [[int(v) for v in o] for o in offsets]
-        try:
-            res = register.overlap_arrays(arrays, offsets, fill=fill, mode=mode)
-            out = {"shape": list(res.shape), "data": [fhex(v) for v in res.ravel()]}
-        except Exception as e:  # the quantified inputs never raise
-            out = {"raises": type(e).__name__, "msg": str(e)[:200]}
-        unchanged = (all(b.tobytes() == x for (_, b), x in zip(pairs, before))
-                     and shapes == [(a.shape, a.strides, a.dtype.str) for a in arrays]
-                     and [[int(v) for v in o] for o in offsets] == offs_before and len(offsets) == len(arrs_desc))
-        return out, unchanged
+
+        def call():
+            try:
+                res = register.overlap_arrays(arrays, offsets, fill=fill, mode=mode)
+                return {"shape": list(res.shape), "data": [fhex(v) for v in res.ravel()]}
+            except Exception as e:  # the quantified inputs never raise
+                return {"raises": type(e).__name__, "msg": str(e)[:200]}
+
+        def same():
+            return (all(b.tobytes() == x for (_, b), x in zip(pairs, before))
+                    and shapes == [(a.shape, a.strides, a.dtype.str) for a in arrays]
+                    and [[int(v) for v in o] for o in offsets] == offs_before and len(offsets) == len(arrs_desc))
+
+        out = call()
+        unchanged = same()
+        again = None
+        if repeat:
+            again = call() == out
+            unchanged = unchanged and same()
+        return out, unchanged, again, len({id(a) for a in arrays}) < len(arrays)
 
     def metamorphic(self, register, case, base, fill):
         """implementation against implementation; every entry must come out True"""
@@ -294,8 +592,11 @@ class C11(Prop):
                 vals = np.array([None if v is None else fhex(v / 4) for v in last["data"]], dtype=object).reshape(last["shape"])
                 sub = exp[sl]
                 mask = np.array([v is not None for v in last["data"]]).reshape(last["shape"])
-                sub[mask] = vals[mask]
-                ok = list(exp.ravel()) == base["data"]
+                if sub.shape != mask.shape:  # the result is not the bounding box (reported by the main leg as well)
+                    ok = False
+                else:
+                    sub[mask] = vals[mask]
+                    ok = list(exp.ravel()) == base["data"]
             res["last_writer"] = ok
         return res
 
@@ -324,14 +625,25 @@ class C11(Prop):
         if case.get("offs_kind"):
             feats.add("offsets:" + case["offs_kind"])
         if case["kind"] == "plain":
+            if not exact_ok([v for a in case["arrays"] for v in a["data"]]):
+                return outcome({"excluded": "sums not exact"}, None, None, spec_ok=True, model_ok=True, undetermined=True,
+                               hyp=False, features=["excluded:inexact-sums"])
             arrays = [to_np(a, ndim) for a in case["arrays"]]
-            impl, unchanged = self.run_plain(register, case, case["arrays"], fill, mode, case.get("offs_kind"))
+            impl, unchanged, again, shared = self.run_plain(register, case, case["arrays"], fill, mode, case.get("offs_kind"),
+                                                            repeat=bool(case.get("repeat")))
             base = dict(impl)
             impl["inputs_unchanged"] = unchanged
+            if again is not None:
+                impl["second_call_same"] = again
+                feats.add("calls:second-call-on-same-objects")
+            if shared:
+                feats.add("alias:same-object-twice")
             rep = ctx.driver.call("c11.overlap", mode=mode, fill=dfill, ndim=ndim,
                                   arrays=[{"off": a["off"], "shape": a["shape"], "data": enc_data(a["data"])} for a in case["arrays"]])
             model = {"shape": rep["shape"], "data": [qhex(v) for v in rep["model"]], "inputs_unchanged": True}
             spec = {"shape": rep["shape"], "data": [qhex(v) for v in rep["spec"]], "inputs_unchanged": True}
+            if again is not None:
+                model["second_call_same"] = spec["second_call_same"] = True
             if case.get("meta"):
                 impl["meta"] = self.metamorphic(register, case, base, fill)
                 model["meta"] = spec["meta"] = {k: True for k in impl["meta"]}
@@ -358,23 +670,46 @@ class C11(Prop):
                 feats.add("offset>=2^53")
             if len(case["arrays"]) > 255:
                 feats.add("contributions>255" if len(case["arrays"]) < 60000 else "contributions>=65535")
-            nontrivial = {"overlap>=2", "nan-only-pixel", "uncovered-pixel"} & feats
-            return outcome(impl, model, spec, features=feats if nontrivial else [])
+            feats |= value_feats(case["arrays"], lo, [h - l for l, h in zip(lo, hi)], case["fill"], mode)
+            feats |= geom_feats(case["arrays"])
+            return outcome(impl, model, spec, features=feats if NONTRIVIAL & feats else [])
         return self.eval_structured(register, case, ctx, fill, dfill, feats)
 
     def eval_structured(self, register, case, ctx, fill, dfill, feats):
         import warnings
 
         ndim, mode = case["ndim"], case["mode"]
-        pairs = []
+        # exact arithmetic: the values of every field are representable in its dtype and their sums are exact in it
         for a in case["arrays"]:
+            for f in a["fields"]:
+                if f.get("dtype", "f8") == "f4" and any(v is not None and abs(v) >= 2 ** 24 for v in f["data"]):
+                    return outcome({"excluded": "value not representable in float32"}, None, None, spec_ok=True, model_ok=True,
+                                   undetermined=True, hyp=False, features=["excluded:inexact-sums"])
+        first_dt = {}
+        for a in case["arrays"]:
+            for f in a["fields"]:
+                first_dt.setdefault(f["name"], f.get("dtype", "f8"))
+        lo = [min(a["off"][k] for a in case["arrays"]) for k in range(ndim)]
+        hi = [max(a["off"][k] + a["shape"][k] for a in case["arrays"]) for k in range(ndim)]
+        for nm in first_dt:
+            vals = [v for a in case["arrays"] for f in a["fields"] if f["name"] == nm for v in f["data"]]
+            narrow = any(f.get("dtype", "f8") == "f4" for a in case["arrays"] for f in a["fields"] if f["name"] == nm)
+            if not exact_ok(vals, 24 if narrow else 53):
+                return outcome({"excluded": "sums not exact"}, None, None, spec_ok=True, model_ok=True, undetermined=True,
+                               hyp=False, features=["excluded:inexact-sums"])
+
+        def make(a):
             dt = [(f["name"], NPDT[f.get("dtype", "f8")]) for f in a["fields"]]
             arr = np.empty(a["shape"], dtype=dt)
             for f in a["fields"]:
-                vals = np.array([math.nan if v is None else v / 4 for v in f["data"]]).reshape(a["shape"])
-                arr[f["name"]] = vals  # exact: generated values are representable in the field's dtype
-            pairs.append(lay_out(arr, a.get("layout", "c")))
+                vals = np.array([fval(v, f.get("negzero", False)) for v in f["data"]]).reshape(a["shape"])
+                arr[f["name"]] = vals  # exact: the values are representable in the field's dtype (checked above)
+            return lay_out(arr, a.get("layout", "c"))
+
+        pairs = build_objects(case["arrays"], make, case.get("share_objects", False))
         arrays = [p[0] for p in pairs]
+        if len({id(a) for a in arrays}) < len(arrays):
+            feats.add("alias:same-object-twice")
         offsets = make_offsets(case)
         before = [b.tobytes() for _, b in pairs]
         offs_before = [[int(v) for v in o] for o in offsets]
@@ -393,6 +728,12 @@ class C11(Prop):
         got = call(offsets)
         unchanged = (all(b.tobytes() == x for (_, b), x in zip(pairs, before))
                      and [[int(v) for v in o] for o in offsets] == offs_before)
+        again = None
+        if case.get("repeat"):
+            again = call(offsets)
+            unchanged = unchanged and (all(b.tobytes() == x for (_, b), x in zip(pairs, before))
+                                       and [[int(v) for v in o] for o in offsets] == offs_before)
+            feats.add("calls:second-call-on-same-objects")
         rep = ctx.driver.call("c11.structuredD", mode=mode, fill=dfill, ndim=ndim,
                               arrays=[{"off": a["off"], "shape": a["shape"],
                                        "fields": [{"name": f["name"], "dtype": f.get("dtype", "f8"), "data": enc_data(f["data"])}
@@ -421,6 +762,13 @@ class C11(Prop):
 
         got = mask(got)
         impl_cmp = {k: v for k, v in got.items() if k != "msg"}
+        if again is not None:
+            again = {k: v for k, v in mask(again).items() if k != "msg"} == impl_cmp
+        for nm in first_dt:
+            feats |= value_feats([{"off": a["off"], "shape": a["shape"], "data": f["data"], "negzero": f.get("negzero", False)}
+                                  for a in case["arrays"] for f in a["fields"] if f["name"] == nm],
+                                 lo, [h - l for l, h in zip(lo, hi)], case["fill"], mode)
+        feats |= geom_feats(case["arrays"])
         # the property speaks of the union of field names, not of their order
         key = lambda r: {"fields": sorted(r["fields"], key=lambda f: f["name"])} if r and "fields" in r else r
         dts = {f.get("dtype", "f8") for a in case["arrays"] for f in a["fields"]}
@@ -465,10 +813,15 @@ class C11(Prop):
             meta_s = {"translation": True}
             feats.add("meta:translation")
         impl = {"result": impl_cmp, "inputs_unchanged": unchanged, "meta": meta_i}
-        spec_ok = unchanged and (meta_i == meta_s) and (not hyp or core.canon(key(impl_cmp)) == core.canon(key(spec)))
-        model_ok = unchanged and core.canon(impl_cmp) == core.canon(model)
-        return outcome(impl, {"result": model, "inputs_unchanged": True, "meta": meta_s},
-                       {"result": key(spec), "inputs_unchanged": True, "meta": meta_s},
+        extra = {}
+        if again is not None:  # the second call on the same objects returned the same
+            impl["second_call_same"] = again
+            extra = {"second_call_same": True}
+        spec_ok = (unchanged and again is not False and (meta_i == meta_s)
+                   and (not hyp or core.canon(key(impl_cmp)) == core.canon(key(spec))))
+        model_ok = unchanged and again is not False and core.canon(impl_cmp) == core.canon(model)
+        return outcome(impl, {"result": model, "inputs_unchanged": True, "meta": meta_s, **extra},
+                       {"result": key(spec), "inputs_unchanged": True, "meta": meta_s, **extra},
                        spec_ok=spec_ok, model_ok=model_ok, hyp=hyp, features=feats)
 
     def known(self, case, out):
@@ -495,6 +848,13 @@ class C11(Prop):
         if len(arrs) > 1:
             for i in range(len(arrs)):
                 yield {**case, "arrays": arrs[:i] + arrs[i + 1:]}
+        for k in ("meta", "repeat", "share_objects", "offs_kind"):  # legs and options the failure does not need
+            if k in case:
+                yield {k2: v for k2, v in case.items() if k2 != k}
+        for i, a in enumerate(arrs):
+            for k in ("layout", "negzero"):
+                if k in a:
+                    yield {**case, "arrays": arrs[:i] + [{k2: v for k2, v in a.items() if k2 != k}] + arrs[i + 1:]}
         if case["kind"] == "plain":
             for i, a in enumerate(arrs):
                 for ax in range(case["ndim"]):
@@ -503,7 +863,7 @@ class C11(Prop):
                         sl = [slice(None)] * case["ndim"]
                         sl[ax] = slice(0, a["shape"][ax] - 1)
                         sub = arr[tuple(sl)]
-                        b = {"off": a["off"], "shape": list(sub.shape), "data": list(sub.ravel())}
+                        b = {**a, "shape": list(sub.shape), "data": list(sub.ravel())}
                         yield {**case, "arrays": arrs[:i] + [b] + arrs[i + 1:]}
             # remove a large common translation (all arrays together, so the box stays small)
             mins = [min(a["off"][k] for a in arrs) for k in range(case["ndim"])]
